@@ -1068,7 +1068,7 @@ def gen_history(rng, focus, cfg, pool, n, ms):
         del recent[:-max(1, ms)]
         rn = rng.choice(sorted(EXC_TYPES)) if rng.random() < raise_p else None
         ops.append(_call(c, rn))
-    if focus in ('C05', 'C15', 'C07') and has_arch and rng.random() < 0.35:
+    if focus in ('C02', 'C05', 'C15', 'C07') and has_arch and rng.random() < 0.35:
         # "warm start": the archive already holds part of the pool, the memory cache is emptied (or a
         # new instance is created) and bulk-loaded, and only then do calls - some of them new - arrive
         part = rng.sample(pool, max(1, int(len(pool) * rng.choice([0.5, 0.7]))))
@@ -1087,7 +1087,7 @@ def gen_mgmt(rng, focus, cfg, pool, has_arch):
                     ['archived', 1], ['reopen']]
         if focus in ('C02', 'C07'):
             choices += [['swaparchive'], ['archived', 0]]
-        if focus in ('C01', 'C05', 'C15', 'C07'):
+        if focus in ('C01', 'C02', 'C05', 'C15', 'C07'):
             part = rng.sample(pool, max(1, int(len(pool) * rng.choice([0.4, 0.6, 1.0]))))
             choices += [['load'], ['load'], ['archfill', [[enc(c[0]), enc(c[1])] for c in part]],
                         ['swaparchive']]
